@@ -14,7 +14,7 @@ import ast
 from dataclasses import dataclass, field
 from typing import Any, Callable, Optional
 
-from .program import AnalysisError, FuncInfo, Program, bind_args, short, unparse
+from .program import AnalysisError, FuncInfo, Program, StarredCall, bind_args, short, unparse
 
 
 class Unsupported(AnalysisError):
@@ -428,8 +428,13 @@ class Interp:
     # ------------------------------------------------------------------
     # assignment
     # ------------------------------------------------------------------
-    def assign(self, target: ast.expr, v, fr: Frame, st: ast.AST) -> None:
+    def assign(self, target: ast.expr, v, fr: Frame, st: ast.AST, element_store: bool = False) -> None:
         if isinstance(target, ast.Name):
+            cur = fr.env.get(target.id)
+            if element_store and isinstance(cur, Ref) and "." in cur.path and not cur.path.startswith(("item", "call:", "obj:", "slice:", "str:", "default:", "const:", "nonnum:", "seq:")):
+                # store through a local alias of an object (ncvars = self.nc.variables; ncvars[k][i] = v)
+                self.objenv[cur.path] = v
+                return
             fr.env[target.id] = v
             return
         if isinstance(target, (ast.Tuple, ast.List)):
@@ -460,11 +465,11 @@ class Interp:
                     # state[name] = ... inside a loop over names: one generic item of the role object
                     self.objenv[f"{bp}.<item>"] = v
                     return
-                self.assign(base, v, fr, st)
+                self.assign(base, v, fr, st, element_store=True)
                 self._mark_mutated(base, fr)
                 return
             if _is_full_slice(target.slice):
-                self.assign(base, v, fr, st)
+                self.assign(base, v, fr, st, element_store=True)
                 self._mark_mutated(base, fr)
                 return
             # masked / indexed store
@@ -478,7 +483,7 @@ class Interp:
                 if saved:
                     fr.env.update(saved)
             val = self.dom.where(mask, self.num(v) if not isinstance(v, (Tup, Phi)) else v, self.num(old), st)
-            self.assign(base, val, fr, st)
+            self.assign(base, val, fr, st, element_store=True)
             self._mark_mutated(base, fr)
             return
         if isinstance(target, ast.Starred):
@@ -666,6 +671,8 @@ class Interp:
             if isinstance(a, Phi):
                 return self._join(a.test, self._binop(op, a.a, b, node), self._binop(op, a.b, b, node), a.cond)
             return self._join(b.test, self._binop(op, a, b.a, node), self._binop(op, a, b.b, node), b.cond)
+        if isinstance(a, (Tup, str, MapV)) or isinstance(b, (Tup, str, MapV)) or a is None or b is None:
+            return Ref("nonnum:" + short(node, 60))
         return self.dom.binop(op, self.num(a), self.num(b), node)
 
     def _unop(self, op, a, node):
@@ -832,6 +839,32 @@ class Interp:
         return self.dom.call(fname, args, kwargs, node, self)
 
     def inline(self, callee: FuncInfo, node: ast.Call, fr: Frame, recv_path: Optional[str]):
+        if any(isinstance(a, ast.Starred) for a in node.args):
+            # f(a, *limits): expand starred tuples whose abstract value is a Tup of known length
+            import copy
+
+            new_args = []
+            tmp_names = {}
+            for a in node.args:
+                if isinstance(a, ast.Starred):
+                    v = self.eval(a.value, fr)
+                    if not isinstance(v, Tup):
+                        raise Unsupported(f"{fr.fi.loc(node)}: starred argument with unknown length in {short(node)}")
+                    for i, item in enumerate(v.items):
+                        nm = f"__star{len(tmp_names)}"
+                        tmp_names[nm] = item
+                        new_args.append(ast.Name(id=nm, ctx=ast.Load()))
+                else:
+                    new_args.append(a)
+            node2 = ast.Call(func=node.func, args=new_args, keywords=node.keywords)
+            ast.copy_location(node2, node)
+            saved = {k: fr.env.get(k) for k in tmp_names}
+            fr.env.update(tmp_names)
+            try:
+                return self.inline(callee, ast.fix_missing_locations(node2), fr, recv_path)
+            finally:
+                for k in tmp_names:
+                    fr.env.pop(k, None)
         bound = bind_args(callee, node)
         args = {}
         arg_nodes = {}
@@ -919,3 +952,31 @@ def vtext(v) -> str:
 
 def _path(v) -> str:
     return v.path if isinstance(v, Ref) else str(v)
+
+
+def make_flag_decide(flags: dict, prefix: str = "self."):
+    """decide_hook that evaluates boolean expressions over configuration flags
+    (`self.vertdiff or self.vertical_advection`, `not self.vertdiff and not ...`)."""
+
+    def ev(n):
+        if isinstance(n, ast.BoolOp):
+            vals = [ev(v) for v in n.values]
+            if isinstance(n.op, ast.And):
+                if any(v is False for v in vals):
+                    return False
+                return True if all(v is True for v in vals) else None
+            if any(v is True for v in vals):
+                return True
+            return False if all(v is False for v in vals) else None
+        if isinstance(n, ast.UnaryOp) and isinstance(n.op, ast.Not):
+            v = ev(n.operand)
+            return None if v is None else not v
+        t = unparse(n)
+        if t.startswith(prefix) and t[len(prefix):] in flags:
+            return bool(flags[t[len(prefix):]])
+        return None
+
+    def decide(test, fr, it):
+        return ev(test)
+
+    return decide
